@@ -245,6 +245,16 @@ pub fn judge(p: &Program) -> Outcome {
         Err(e) => {
             let class = e.class();
             if reso.unspecified.is_some() {
+                // A parameter name written twice leaves open which parameter a use denotes, not
+                // whether uses have a binder: every use still has one.
+                if reso.unspecified == Some("duplicate parameter name") && class == "NotInScope" && !reso.unbound {
+                    return Outcome::bad(
+                        "spurious-name-error",
+                        format!("rejected with {class} | every use has a binder (a parameter name is written twice)"),
+                        format!("{e:?}").chars().take(300).collect(),
+                        case(),
+                    );
+                }
                 return Outcome::ok("unspecified collision: rejected", None);
             }
             if name_error {
